@@ -461,8 +461,12 @@ def hAll (args res : List String) : Verdict :=
     let mm := Float.ceil ((md + C.delta) / C.d3)
     if mm != Float.ofNat m then .bad s!"AllInt0: harness used m = {m}, ceil(maxdistx / _d3) = {shw mm}" else
     let conj2 : Float → Float → Float := fun s0 s3 =>
-      match js.find? (fun e => Float.abs (e.1 - s0) ≤ 1e-9 * (1 + Float.abs s0) && Float.abs (e.2.1 - s3) ≤ 1e-9 * (1 + Float.abs s3)) with
-      | some e => e.2.2 | none => 0.0 / 0.0
+      -- exact keys first (the model forms s0 and s3 with the same additions as the code)
+      match js.find? (fun e => e.1 == s0 && e.2.1 == s3) with
+      | some e => e.2.2
+      | none =>
+        match js.find? (fun e => Float.abs (e.1 - s0) ≤ 1e-9 * (1 + Float.abs s0) && Float.abs (e.2.1 - s3) ≤ 1e-9 * (1 + Float.abs s3)) with
+        | some e => e.2.2 | none => 0.0 / 0.0
     let o := allInt0 C (lookupB t) conj2 md ⟨p0x, p0y, 0⟩ m 1000
     let okList := o.res.length == v.length && (o.res.zip v).all (fun e => sameXP e.1 e.2)
     if okList && o.visited.length == c1 && sumIts t o.visited == c0 && !o.exhausted then .ok
